@@ -1645,7 +1645,8 @@ def main():
     out.append('\n\n'.join(v[1] for v in em.idx_helpers.values()))
     out.append('\n'.join(bodies))
     stubs = ['#ifndef __CPROVER__', 'void __vrt_undefined_call(const char *name);']
-    for n, f in [x for x in undefined if cid(x[0]) not in ("__vrt_static_init",)]:
+    LIBC = {'log10', 'pow', 'fabs', 'floor', 'ceil', 'sqrt', 'log', 'exp', 'isspace', 'isdigit', 'strlen', 'memcmp', 'abs', 'labs', 'round', 'trunc', 'fmod'}
+    for n, f in [x for x in undefined if cid(x[0]) not in ("__vrt_static_init",) and cid(x[0]) not in LIBC]:
         ps = [em.ctype(pt, 'p%d' % i) for i, (pt, pn, info) in enumerate(f.params)]
         if f.vararg:
             ps.append('...')
